@@ -1162,6 +1162,7 @@ func checkSetNode(w *World, r *Report) {
 	checkAttributeNamesNotSpecialCased(w, r)
 	checkLoopSequenceIsEvaluated(w, r)
 	checkLiteralsAreFresh(w, r)
+	checkElseSeesOuterLoop(w, r)
 	fn := w.ssaFunc(w.method("SetNode", "Render"))
 	setVar := w.method("RenderContext", "SetVariable")
 	evalM := w.method("RenderContext", "EvaluateExpression")
@@ -2213,4 +2214,71 @@ func allocatedHere(v ssa.Value, seen map[ssa.Value]bool, depth int) bool {
 		}
 	}
 	return false
+}
+
+// checkElseSeesOuterLoop — R09.17: the else branch of a for loop runs outside the loop.  No
+// render of ForNode.elseBranch is reachable from a binding of the name "loop" in the same
+// function: the loop record is bound per iteration, after it is known that something iterates;
+// bound up front, an else branch nested in another loop reads this loop's all-zero record
+// instead of the enclosing loop's counters.
+func checkElseSeesOuterLoop(w *World, r *Report) {
+	setVar := w.method("RenderContext", "SetVariable")
+	n := 0
+	for _, fn := range w.pkgFuncs() {
+		var binds, elses []ssa.Instruction
+		instrsOf(fn, func(in ssa.Instruction) {
+			c, ok := in.(ssa.CallInstruction)
+			if !ok {
+				return
+			}
+			if calleeFunc(c) == setVar {
+				if s, ok := constString(callArgs(c)[0]); ok && s == "loop" {
+					binds = append(binds, in)
+				}
+				return
+			}
+			if c.Common().IsInvoke() {
+				for _, fr := range rendersOf(in) {
+					if fr.typ == "ForNode" && fr.field == "elseBranch" {
+						elses = append(elses, in)
+					}
+				}
+				return
+			}
+			if g := c.Common().StaticCallee(); g != nil && isTwigFn(g) {
+				for i, a := range c.Common().Args {
+					if t, f := originField(a, 0); t == "ForNode" && f == "elseBranch" && i < len(g.Params) && rendersParam(g, g.Params[i]) {
+						elses = append(elses, in)
+					}
+				}
+			}
+		})
+		for _, e := range elses {
+			n++
+			construct := "else branch renders without this loop's record"
+			bad := ""
+			for _, b := range binds {
+				reaches := false
+				if b.Block() == e.Block() {
+					reaches = instrIndex(b) < instrIndex(e)
+				}
+				if !reaches {
+					for _, s := range b.Block().Succs {
+						if blockReaches(s, e.Block()) {
+							reaches = true
+						}
+					}
+				}
+				if reaches {
+					bad = w.posOf(b.Pos())
+				}
+			}
+			if bad == "" {
+				r.ok("R09.17", ssaName(fn), construct, w.posOf(e.Pos()), "not reachable from a binding of `loop`", true)
+			} else {
+				r.bad("R09.17", ssaName(fn), construct, w.posOf(e.Pos()), "the else branch can be rendered after `loop` was bound (at "+bad+") in the same call: inside an enclosing loop, `loop.index` in the else branch is then this loop's empty record, not the enclosing loop's position")
+			}
+		}
+	}
+	r.floor("renders of a for loop's else branch", n, 1)
 }
